@@ -5,7 +5,7 @@ import CoclsModel.ThreadPoolProofsC
 namespace Cocls.Pool
 
 theorem inv_init (c : Cfg) (hout : c.dtorOutside = true) (hnw : 0 < c.nw) (hnt : c.nw ≤ c.nt)
-    (hb : c.hasB = true → c.nw < c.nt) (hcur : c.curNullOk = true) : Inv c (init c) := by
+    (hb : c.hasB = true → c.nw < c.nt) (hcur : c.curNullOk = true) (haw : c.awHandleFirst = true) : Inv c (init c) := by
   constructor <;> (try simp only [init]) <;> (try dsimp only)
   all_goals (try assumption)
   all_goals (try (intros; first | rfl | omega | contradiction))
@@ -61,6 +61,19 @@ theorem inv_peekMove {c : Cfg} {s : State} {t : Nat} {p : Pc}
     have := h.s_tmp_pc t; grind
   unfold setPc
   rcases hpc with ⟨k, hpc⟩ | ⟨k, r, hpc⟩ <;> rcases hp with hp | ⟨k', r', hp⟩ <;> subst hp <;> inv_step h
+
+theorem inv_park {c : Cfg} {s : State} {t n : Nat} {rest : List Act} {bd : List Prim} (h : Inv c s) :
+    Inv c { s with todo := upd s.todo t rest, slotReg := upd s.slotReg n true, slotHandle := upd s.slotHandle n true,
+                   slotBody := upd s.slotBody n bd, flag := upd s.flag (10 + n) true } := by
+  inv_step h
+
+theorem inv_setHandle {c : Cfg} {s : State} {t n : Nat} {rest : List Act} (h : Inv c s) :
+    Inv c { s with todo := upd s.todo t rest, slotHandle := upd s.slotHandle n true } := by
+  inv_step h
+
+theorem inv_slotUsed {c : Cfg} {s : State} {n : Nat} (h : Inv c s) :
+    Inv c { s with slotUsed := upd s.slotUsed n true } := by
+  inv_step h
 
 theorem inv_bBegin {c : Cfg} {s : State} {t : Nat} {rest : List Act} {isD : Bool} (h : Inv c s) (hpc : s.pc t = Pc.idle) :
     Inv c { s with todo := upd s.todo t rest, pc := upd s.pc t (Pc.bStopCS isD) } := by
@@ -167,6 +180,18 @@ theorem inv_stepPc {c : Cfg} {s : State} (h : Inv c s) (t k : Nat)
       · split
         · exact inv_waitSkip h
         · rename_i hn; exact absurd h.wf_cur hn
+    · split
+      · exact inv_park h
+      · rename_i hn; exact absurd h.wf_aw hn
+    · exact inv_setHandle h
+    · split
+      · split
+        · exact inv_newJob (inv_slotUsed h) (Or.inl hpc)
+        · rename_i hr hh
+          simp only [Bool.and_eq_true] at hr
+          have := h.a_handle _ hr.1
+          exact absurd this hh
+      · exact inv_waitSkip h
     · exact inv_bBegin h hpc
     · split
       · exact inv_waitSkip h
